@@ -132,6 +132,12 @@ def check(ctx):
     nloops = 0
     for cls in classes:
         cat = catalogue(a, cls)
+        # "no more PUBLISH awaiting their first acknowledgement than the window size": the window counts what is in it, so an entry may leave
+        # it only when its exchange moves on - its Deferred fired, handed to the PUBREL that replaces it, or the entry registered again.  An
+        # entry dropped silently is still on the wire and no longer counted
+        from .flows import rule_drop, mark_qos0_exception
+        mark_qos0_exception(cat)
+        rule_drop(ctx, cat, prefix="W-COUNT")
         cq = cls_short(cls.qual)
         seen_loops = {}
         # held-back and in-flight messages of a persistent session survive a loss only if the loss is handled under that
